@@ -220,6 +220,7 @@ func runMovedCase(rep *vh.Report, env vh.Env, ps *sut.ProxyStack, u *upstream, c
 		email = "alice@" + u.uni.D
 	}
 	tag := word(r, 4)
+	fixed := fixedAnswers(r)
 	atLogin, _ := membership(loginCls, u.rules.Groups, tag)
 	atReval, revalErr := membership(revalCls, u.rules.Groups, tag)
 	atRefr, refrErr := membership(refrCls, u.rules.Groups, tag)
@@ -234,14 +235,15 @@ func runMovedCase(rep *vh.Report, env vh.Env, ps *sut.ProxyStack, u *upstream, c
 
 	id := sut.NewID()
 	at, rt, nt := "at-"+id, "rt-"+id, "nt-"+id
-	ps.Auth.Set("profile", at, scriptAnswer(email, atLogin, false))
+	ps.Auth.Set("profile", at, scriptAnswer(email, atLogin, false, fixed))
 	ps.Auth.Set("validate", at, sut.ValidateOK())
 	ps.Auth.Set("refresh", rt, sut.RefreshOK(nt, 3600))
 	defer func() {
-		for _, e := range [][2]string{{"profile", at}, {"profile", nt}, {"validate", at}, {"refresh", rt}} {
+		keys := [][2]string{{"profile", at}, {"profile", nt}, {"validate", at}, {"refresh", rt}}
+		for _, e := range keys {
 			ps.Auth.Unset(e[0], e[1])
-			ps.Auth.Calls(e[0], e[1])
 		}
+		drainCalls(rep, ps, keys)
 	}()
 
 	mc := movedCase{Index: i, Config: ci, Upstream: u.idx, Kinds: maskName(u.mask), Addresses: u.rules.Addresses, Domains: u.rules.Domains,
@@ -293,7 +295,7 @@ func runMovedCase(rep *vh.Report, env vh.Env, ps *sut.ProxyStack, u *upstream, c
 	mc.Next, _ = get(rep, ps, u, cookie)
 
 	// ---- the directory changes; revalidation sees the new membership under the same access token
-	ps.Auth.Set("profile", at, scriptAnswer(email, atReval, revalErr))
+	ps.Auth.Set("profile", at, scriptAnswer(email, atReval, revalErr, fixed))
 	var afterReval string
 	mc.Reval, afterReval = get(rep, ps, u, ps.Shift(cookie, 11*time.Minute))
 	mc.FactsRev = factsChange(atLogin, atReval, revalErr, u.rules.Groups)
@@ -303,7 +305,7 @@ func runMovedCase(rep *vh.Report, env vh.Env, ps *sut.ProxyStack, u *upstream, c
 
 	// ---- refresh: either from the login cookie, or from the cookie the revalidation set (its recorded groups
 	// are those of the revalidation moment)
-	ps.Auth.Set("profile", nt, scriptAnswer(email, atRefr, refrErr))
+	ps.Auth.Set("profile", nt, scriptAnswer(email, atRefr, refrErr, fixed))
 	base, recorded := cookie, atLogin
 	if chained && mc.Reval.Verdict == "admit" && afterReval != "" {
 		base, recorded = afterReval, atReval
@@ -360,46 +362,54 @@ func runMovedCase(rep *vh.Report, env vh.Env, ps *sut.ProxyStack, u *upstream, c
 			rep.Count("moved_judged_"+site+"_"+st.facts, 1)
 			rep.Count("moved_judged_changed_facts", 1)
 		}
-		want := st.ref.verdict()
+		judgeLater(rep, "c11-moved", "moved", i, mc, st.name, st.p, st.ref, "facts="+st.facts, admitted, mc.Next, emailKindsCfg)
+	}
+}
+
+// judgeLater compares the verdict of one later moment with the reference evaluated with the facts of that
+// moment. A refusal the reference does not share is attributed to the known family where it applies (F1/F3:
+// the per-request all-of loop over the e-mail rules; F2: group membership mandatory at revalidation /
+// refresh) and reported under that family's signature; any other disagreement is reported with tag.
+func judgeLater(rep *vh.Report, stream, prefix string, i int, c interface{}, siteName string, p probe, ref reference, tag string, admitted bool, next probe, emailKindsCfg bool) {
+	v := p.Verdict
+	site := strings.Replace(siteName, "-", "_", -1)
+	want := ref.verdict()
+	switch {
+	case v == want:
+		rep.Count(prefix+"_agrees_"+site+"_"+v, 1)
+	case v == "admit": // reference: no rule admits with the facts of this moment
+		rep.Violate(stream, i, fmt.Sprintf("later-differs: site=%s later=admit reference=deny %s", siteName, tag),
+			"a user whom no configured rule admits with the facts of that moment is served", c)
+	default: // refused although the reference admits with the facts of this moment
+		fe := ref.failingEmailKinds()
 		switch {
-		case v == want:
-			rep.Count("moved_agrees_"+site+"_"+v, 1)
-		case v == "admit": // reference: no rule admits with the facts of this moment
-			rep.Violate("c11-moved", i, fmt.Sprintf("later-differs: site=%s later=admit reference=deny facts=%s", st.name, st.facts),
-				"a user whom no configured rule admits with the facts of that moment is served", mc)
-		default: // refused although the reference admits with the facts of this moment
-			fe := st.ref.failingEmailKinds()
+		case len(fe) > 0 && emailKindsCfg:
 			switch {
-			case len(fe) > 0 && emailKindsCfg:
-				// known family F1/F3: the per-request all-of loop over the e-mail rules
-				switch {
-				case !admitted:
-					rep.Count("moved_minted_refused_by_email_all_of", 1)
-				case st.name == "next-request":
-					rep.Violate("c11-moved", i, fmt.Sprintf("inconsistent: login=admit later=deny site=next-request admitted-by=%s failing=%s", st.ref.admittedBy(), strings.Join(fe, "+")),
-						"a user admitted at login (any-of, as documented) is refused later although the facts are unchanged", mc)
-				case mc.Next.Verdict == "deny":
-					rep.Count("later_denied_same_class_as_next_request", 1)
-				default:
-					rep.Violate("c11-moved", i, fmt.Sprintf("inconsistent: login=admit later=deny site=%s admitted-by=%s failing=%s", st.name, st.ref.admittedBy(), strings.Join(fe, "+")),
-						"refused by an e-mail rule that did not refuse the plain next request", mc)
-				}
-			case st.ref.grp == fail && st.name != "next-request":
-				// known family F2: group membership is mandatory at revalidation / refresh
-				if !admitted {
-					rep.Count("moved_minted_refused_by_mandatory_group", 1)
-					continue
-				}
-				rep.Violate("c11-moved", i, fmt.Sprintf("inconsistent: login=admit later=deny site=%s admitted-by=%s failing=group", st.name, st.ref.admittedBy()),
-					"a user an e-mail rule admits is refused at revalidation / refresh because no listed group reports them", mc)
+			case !admitted:
+				rep.Count(prefix+"_minted_refused_by_email_all_of", 1)
+			case siteName == "next-request":
+				rep.Violate(stream, i, fmt.Sprintf("inconsistent: login=admit later=deny site=next-request admitted-by=%s failing=%s", ref.admittedBy(), strings.Join(fe, "+")),
+					"a user admitted at login (any-of, as documented) is refused later although the facts are unchanged", c)
+			case next.Verdict == "deny":
+				rep.Count("later_denied_same_class_as_next_request", 1)
 			default:
-				by := st.ref.admittedBy()
-				if st.ref.grp == pass {
-					by = "group"
-				}
-				rep.Violate("c11-moved", i, fmt.Sprintf("later-differs: site=%s later=deny reference=admit admitted-by=%s facts=%s", st.name, by, st.facts),
-					"a user who satisfies a rule with the facts of that moment (a fresh login would admit) is refused", mc)
+				rep.Violate(stream, i, fmt.Sprintf("inconsistent: login=admit later=deny site=%s admitted-by=%s failing=%s", siteName, ref.admittedBy(), strings.Join(fe, "+")),
+					"refused by an e-mail rule that did not refuse the plain next request", c)
 			}
+		case ref.grp == fail && siteName != "next-request":
+			if !admitted {
+				rep.Count(prefix+"_minted_refused_by_mandatory_group", 1)
+				return
+			}
+			rep.Violate(stream, i, fmt.Sprintf("inconsistent: login=admit later=deny site=%s admitted-by=%s failing=group", siteName, ref.admittedBy()),
+				"a user an e-mail rule admits is refused at revalidation / refresh because no listed group reports them", c)
+		default:
+			by := ref.admittedBy()
+			if ref.grp == pass {
+				by = "group"
+			}
+			rep.Violate(stream, i, fmt.Sprintf("later-differs: site=%s later=deny reference=admit admitted-by=%s %s", siteName, by, tag),
+				"a user who satisfies a rule with the facts of that moment (a fresh login would admit) is refused", c)
 		}
 	}
 }
